@@ -128,6 +128,8 @@ let usable : (int * string, unit) Hashtbl.t = Hashtbl.create 16
 (* set by the marker HONEST: the next catch-up is fed what a peer actually holds about the member
    (not arbitrary data), so the ledger-based monitors (C02, C03, C04) keep applying *)
 let next_catchup_honest = ref false
+(* ... and the node whose copy was fetched: the known class KF-1 travels with it *)
+let next_catchup_source : int option ref = ref None
 (* C11: the same with "fresh" read as "strictly higher than every heartbeat this node has ever
    observed for the member while it knew or remembered it": highest heartbeat observed, instant of the
    last record-breaking observation, and whether two record-breaking observations at most
@@ -140,6 +142,8 @@ let usable_strict : (int * string, unit) Hashtbl.t = Hashtbl.create 16
 let fresh_times : (int * string, BZ.t list) Hashtbl.t = Hashtbl.create 16
 (* C18: members for which a catch-up was accepted since the node's previous evaluation *)
 let caught_up : (int * string, unit) Hashtbl.t = Hashtbl.create 16
+(* C12: instant of the evaluation that first found the member dead (its time of death) *)
+let dead_since : (int * string, BZ.t) Hashtbl.t = Hashtbl.create 16
 let weak_acceptance_seen = ref false
 (* KF-1 attribution: copies (node index, member) that performed a weak acceptance, or applied a node
    delta computed from such a copy; node deltas computed from such copies *)
@@ -155,7 +159,7 @@ let n_checks = ref 0
 let reset_case () =
   Hashtbl.reset infos; Hashtbl.reset snaps; Hashtbl.reset ledgers; Hashtbl.reset owner_hb;
   Hashtbl.reset fresh;
-  next_catchup_honest := false; Hashtbl.reset fresh_times; Hashtbl.reset caught_up; Hashtbl.reset usable; Hashtbl.reset seen_max; Hashtbl.reset last_rb; Hashtbl.reset usable_strict; now := BZ.zero; Hashtbl.reset tainted; Hashtbl.reset tainted_nds; Hashtbl.reset removed_by_eval;
+  next_catchup_honest := false; next_catchup_source := None; Hashtbl.reset dead_since; Hashtbl.reset fresh_times; Hashtbl.reset caught_up; Hashtbl.reset usable; Hashtbl.reset seen_max; Hashtbl.reset last_rb; Hashtbl.reset usable_strict; now := BZ.zero; Hashtbl.reset tainted; Hashtbl.reset tainted_nds; Hashtbl.reset removed_by_eval;
   weak_acceptance_seen := false; catchup_seen := false
 
 let flag (prop : string) (cls : string option) (what : string) =
@@ -501,6 +505,33 @@ let on_eval (idx : int) (obs : string) : unit =
        | None -> ());
       check "C12" (List.for_all (fun (j, _) -> nm_get j s.nodes = None) s.gcn)
         "the removed-member memory lists a member the node currently holds";
+      (* C12: removal exactly at the grace period — a member that has been dead (since the evaluation
+         that first found it dead) for the full grace period is removed by this evaluation, and none
+         is removed earlier *)
+      (match before with
+       | Some b ->
+           let grace = z_of_cz info.fdc.dead_grace in
+           List.iter
+             (fun (i, _) ->
+               if not (id_eqb i info.self) then begin
+                 let k = (idx, token_of_id i) in
+                 let removed = nm_get i s.nodes = None in
+                 (match Hashtbl.find_opt dead_since k with
+                  | Some t when in_ids i b.dead ->
+                      let due = BZ.compare (BZ.add t grace) !now <= 0 in
+                      if due && not (in_ids i s.live) then      (* revived by this very evaluation: not dead *)
+                        check "C12" removed
+                          ("member " ^ token_of_id i ^ " has been dead for the full grace period but this evaluation did not remove it")
+                      else
+                        check "C12" (not removed)
+                          ("member " ^ token_of_id i ^ " was removed before it had been dead for the full grace period")
+                  | _ -> ());
+                 if removed || in_ids i s.live then Hashtbl.remove dead_since k
+                 else if in_ids i s.dead && not (in_ids i b.dead) then
+                   Hashtbl.replace dead_since k !now       (* the transition to dead: time of death *)
+               end)
+             b.nodes
+       | None -> ());
       (* C05 / C12: a liveness evaluation never touches the node's own copy, let alone removes it *)
       (match before with
        | Some b ->
@@ -549,6 +580,16 @@ let on_eval (idx : int) (obs : string) : unit =
                  if silent_too_long then
                    check "C10" ((not is_live) && (is_dead || removed))
                      ("member " ^ token_of_id i ^ " silent for longer than phi_threshold*max(max_interval,initial_interval) but not reported dead");
+                 (* the same with "fresh" read strictly (a heartbeat above everything observed while the
+                    member was known or remembered): replayed lower values do not postpone the deadline *)
+                 (match Hashtbl.find_opt last_rb k, Hashtbl.find_opt seen_max k with
+                  | Some t, _ when BZ.compare (BZ.mul (BZ.sub !now t) (z_of_cz fdc.phi_den)) bound > 0 ->
+                      check "C10" (not is_live)
+                        ("member " ^ token_of_id i ^ " reported live although no heartbeat higher than every heartbeat observed before has arrived for longer than phi_threshold*max(max_interval,initial_interval)")
+                  | None, Some _ ->
+                      check "C10" (not is_live)
+                        ("member " ^ token_of_id i ^ " reported live although only one heartbeat value has ever been observed for it")
+                  | _ -> ());
                  check "C10" (not is_live || Hashtbl.mem usable k)
                    ("member " ^ token_of_id i ^ " reported live although its sampling window has received no usable interval (two fresh heartbeats at most max_interval apart) since the evaluation that last found it not alive");
                  (* C11, third sentence: fresh heartbeats since the member was last found not alive, all
@@ -632,12 +673,18 @@ let on_delta ?dg (idx : int) (mtu : int) (sched : id list) (obs : string) : unit
 let on_catchup ?member ?supplied (idx : int) (obs : string) : unit =
   let honest = !next_catchup_honest in
   next_catchup_honest := false;
+  (match !next_catchup_source, member with
+   | Some src, Some m when Hashtbl.mem tainted (src, token_of_id m) -> Hashtbl.replace tainted (idx, token_of_id m) ()
+   | _ -> ());
+  next_catchup_source := None;
   if not honest then catchup_seen := true;
   match parse_obs obs with
   | Some o ->
       (if honest then
          match Hashtbl.find_opt infos idx with
-         | Some info -> common_checks ~idx info (Hashtbl.find_opt snaps idx) o.snap ~is_local:false
+         (* [before] withheld: a catch-up replaces the key set (C18), which the step-wise C04 rule
+            ("no stored version goes back unless the watermark strictly rises") is not about *)
+         | Some info -> common_checks ~idx info None o.snap ~is_local:false
          | None -> ());
       (match member with
        | Some m when Hashtbl.mem removed_by_eval (idx, token_of_id m) ->
